@@ -10,6 +10,6 @@ HNext == \/ (Send /\ hist' = hist)
          \/ (PollStream /\ hist' = (IF batch = 0 /\ ~done THEN Append(hist, batch' + 1) ELSE hist))
          \/ (After /\ hist' = (IF batch = 0 THEN Append(hist, batch' + 1) ELSE hist))
 HSpec == HInit /\ [][HNext]_hvars
-Done == phase \in {"ended", "after"} /\ inq = <<>>
+Done == phase \in {"ended", "after"} /\ inq = <<>> /\ ~dropped
 Export == Done => PrintT(<<"REPLAY", ToJson([calls |-> calls, frames |-> yielded \o afterGot, reads |-> hist])>>)
 =============================================================================
